@@ -21,6 +21,7 @@ var toleratedSignatures = map[string]bool{
 	"fixed_single_line_no_positions_endless_loop": true,
 	"json_output_path_conflict_fatal":             true,
 	"window_frame_offset_unclamped":               true,
+	"record_set_preallocation_unbounded":          true,
 }
 
 func init() {
@@ -132,5 +133,5 @@ func FuzzProgram(f *testing.F) {
 // no argument classes); it only has to keep the fuzzer away from them.
 func knownShapeOfText(up string) bool {
 	return strings.Contains(up, "RAND") || strings.Contains(up, "JSON_VALUE") || strings.Contains(up, "PAD") || (strings.Contains(up, "PERCENT") && (strings.Contains(up, "NAN") || strings.Contains(up, "OFFSET"))) || strings.Contains(up, "SUBSTR") ||
-		(strings.Contains(up, "JSON") && strings.Contains(up, "."))
+		(avoidKnownJsonPathConflict && strings.Contains(up, "JSON") && strings.Contains(up, "."))
 }
